@@ -64,6 +64,21 @@ def gen(c):
                 'os.mac_verify key=%s in=%s tag=@tag' % (hx(k), hx(m))] +
                ['os.mac_verify key=%s in=%s tag=@tag flip=%d' % (hx(k), hx(m), b) for b in range(128)] +
                ['os.mac_verify key=%s in=%s tag=%s' % (hx(k), hx(m), hx(pattern(rng, 16, 'rand'))) for _ in range(16)], cost=8.0)
+        # wrong in two, three or four bytes with equal or complementary differences (a comparison that folds words or
+        # byte lanes with XOR lets them cancel): every pair of positions with one mask, triples and quads sampled
+        def xm(pos_mask):
+            b = bytearray(16)
+            for i, v in pos_mask: b[i] ^= v
+            return hx(bytes(b))
+        pairs = [(i, j) for i in range(16) for j in range(i + 1, 16)]
+        lines2 = ['os.mac_verify key=%s in=%s tag=@tag xor=%s' % (hx(k), hx(m), xm([(i, v), (j, v)])) for (i, j) in pairs for v in [rng.choice([1, 0x80, 0x5a, 0xff])]]
+        for _ in range(20):
+            pos = rng.sample(range(16), rng.choice([3, 4])); v = rng.randrange(1, 256)
+            masks = [v] * len(pos) if len(pos) == 4 else [v, rng.randrange(1, 256), 0]
+            if len(pos) == 3: masks[2] = masks[0] ^ masks[1] or 1
+            lines2.append('os.mac_verify key=%s in=%s tag=@tag xor=%s' % (hx(k), hx(m), xm(list(zip(pos, masks)))))
+        p.case(['sp.init kind=prf obj=1 variant=fixed outlen=16 key=%s' % hx(k), 'sp.absorb kind=prf obj=1 in=%s' % hx(m), 'sp.squeeze kind=prf obj=1 n=16 save=tag', 'sp.free kind=prf obj=1'] + lines2, cost=8.0)
+        c.distinct([('macv2', rep, i, j) for (i, j) in pairs])
         c.distinct([('macv', rep, b) for b in range(128)])
     # HMAC / KMAC: key lengths around the block size and far above
     klens = [0, 1, 31, 32, 33, 47, 63, 64, 65, 100, 300] if th else [0, 1, 32, 33, 50, 63, 64, 65, 100]
